@@ -1,0 +1,45 @@
+// SPDX-License-Identifier: CC0-1.0
+
+//! Verification hooks (only compiled with `--cfg a4lg_ffuzzy_verif`).
+//!
+//! They exist so that an external runtime monitor can reach generator
+//! states that would otherwise need up to 192GiB of real input, and can
+//! report which internal states an execution went through.
+//! With the cfg off, nothing in this file is compiled.
+
+use super::Generator;
+
+impl Generator {
+    /// Puts a generator that has not consumed any data yet into the state it
+    /// would have after consuming `size` zero bytes.
+    ///
+    /// Zero bytes never end a piece (the rolling hash stays zero), so only
+    /// the input size, the rolling hash window index and the FNV states of
+    /// the first block hash context differ from a new generator.
+    pub fn verif_skip_zero_prefix(&mut self, size: u64) {
+        assert!(self.0.input_size == 0);
+        assert!(self.0.bhidx_start == 0 && self.0.bhidx_end == 1);
+        self.0.input_size = size;
+        for _ in 0..(size % 7) {
+            self.0.roll_hash.update_by_byte(0);
+        }
+        // 64 (not 16): also exact for the 8-bit state kept by opt-reduce-fnv-table.
+        for _ in 0..(size % 64) {
+            self.0.bh_context[0].h_full.update_by_byte(0);
+            self.0.bh_context[0].h_half.update_by_byte(0);
+        }
+    }
+
+    /// Returns `(bhidx_start, bhidx_end, bhidx_end_limit, is_last, elim_border)`.
+    ///
+    /// For evidence only (which states the real engine went through).
+    pub fn verif_probe(&self) -> (usize, usize, usize, bool, u64) {
+        (
+            self.0.bhidx_start,
+            self.0.bhidx_end,
+            self.0.bhidx_end_limit,
+            self.0.is_last,
+            self.0.elim_border,
+        )
+    }
+}
